@@ -31,3 +31,8 @@ package tokenhelper
 //@ lemma cmp-ops-distinguishable;C19 :: (forall ((t Int) (u Int)) (=> (and (isCmp t) (isCmp u) (= (holds t 0 0) (holds u 0 0)) (= (holds t 0 1) (holds u 0 1)) (= (holds t 1 0) (holds u 1 0))) (= t u)))
 //@ lemma converse-involution;C19 uses Converse :: (forall ((t Int)) (=> (isCmp t) (= (call Converse (call Converse t)) t)))
 //@ lemma inverse-involution;C19 uses Inverse :: (forall ((t Int)) (=> (isCmp t) (= (call Inverse (call Inverse t)) t)))
+
+//@ -- RelToCwd is used as a function of the file name (see C18 for its body)
+//@ func RelToCwd
+//@ pure
+//@ nobody
